@@ -23,7 +23,7 @@ import (
 const rule = "case = generated genesis + history of 6-25 blocks driven on a prober replica and a clean twin; at generated probing points 5-15 candidate transactions (every buildable method, valid or with one aspect invalidated incl. every gas exhaustion " +
 	"point, wrong signer, wrong nonce, fee above balance, malformed, unknown method, oversized) are each executed ALONE in an uncommitted block (BeginBlock, DeliverTx, EndBlock) and the complete working state is diffed against the same block without " +
 	"the transaction. oracle = for a transaction with non-zero result code: if an independent predicate (stdlib ed25519 over the harness-computed digest, nonce, balance >= fee + minimum, not reserved/system/oversized) says it fails authentication the diff must " +
-	"be EMPTY; otherwise the diff may only touch the signer's account (nonce +1, balance -fee, nothing else), the proposer entity's balance, the common pool and last-block-fees, with the increases summing to exactly the fee. Separately: CheckTx (new/recheck) " +
+	"be EMPTY; otherwise the diff may only touch the signer's account (nonce +1, balance -fee, nothing else), the proposer entity's balance, the common pool and last-block-fees, with the increases summing to exactly the fee. A failed candidate AMONG OTHERS: the block's own generated transactions executed with and without one failing candidate inserted at a generated position (its signer independent of the block, no block gas limit) - every other transaction's result (code, data, gas) is identical and the working state differs in the fee keys only. Separately: CheckTx (new/recheck) " +
 	"and EstimateGas of all candidates leave the committed state (read from the node database) byte-identical, and the prober's AppHash equals the clean twin's at every height. non-trivial = a failing candidate that passed authentication (fee/nonce charged) " +
 	"with gas used or an application error; distinct = hash of spec, block ids and candidate bytes"
 
@@ -75,6 +75,11 @@ func TestC08FailedTx(t *testing.T) {
 			sim.Profile, candProfile = "vault", "hostile+vault"
 			rec.Label("traffic:vault")
 		}
+		if rapid.Bool().Draw(t, "govCandidates") {
+			// proposal-heavy candidates (parameter changes are validated by the module they concern, inside the transaction)
+			candProfile += "+gov"
+			rec.Label("candidates:gov")
+		}
 		fail := func(sig, format string, args ...any) {
 			ev.Violation(t, sig, "%s; spec=%+v trace=%v", fmt.Sprintf(format, args...), *spec, tail(sim.Trace, 20))
 		}
@@ -119,6 +124,13 @@ func TestC08FailedTx(t *testing.T) {
 					}
 				}
 				committedBefore, _ := chain.DumpAtVersion(prober, 0)
+				type failedCand struct {
+					raw   []byte
+					addr  staking.Address
+					desc  string
+					class string
+				}
+				var failedAfterAuth []failedCand
 				nc := rapid.IntRange(5, ev.Pick(15, 40)).Draw(t, "ncand")
 				for ci := 0; ci < nc; ci++ {
 					g := chain.NewTxGen(sim.W, view, candProfile)
@@ -131,13 +143,13 @@ func TestC08FailedTx(t *testing.T) {
 							rec.Label("probe-point:runtime=active")
 						}
 					}
-					if ci == 0 && candProfile != "hostile" {
+					if ci == 0 && strings.Contains(candProfile, "vault") {
 						nv, nh := g.VaultStats()
 						rec.Label(fmt.Sprintf("probe-point:vaults=%d", min(nv, 3)))
 						rec.Label(fmt.Sprintf("probe-point:withdraw-policies=%d", min(nh, 3)))
 					}
 					d := g.Gen(t)
-					if ci%4 == 1 && candProfile != "hostile" {
+					if ci%4 == 1 && strings.Contains(candProfile, "vault") {
 						if sd := g.GenVaultSubcallGas(t); sd != nil {
 							d = sd
 							rec.Label("candidate:vault-nested-call-gas")
@@ -155,6 +167,9 @@ func TestC08FailedTx(t *testing.T) {
 					fp = append(fp, d.Raw)
 					r0 := res[0]
 					rec.Label(fmt.Sprintf("candidate:%s:%s/%d", d.Method, r0.Codespace, r0.Code))
+					if i := strings.Index(d.Note, "change-parameters:"); i >= 0 {
+						rec.Label(fmt.Sprintf("candidate-proposal:%s:%s/%d", d.Note[i:], r0.Codespace, r0.Code))
+					}
 					if r0.Code == 0 {
 						continue
 					}
@@ -220,6 +235,11 @@ func TestC08FailedTx(t *testing.T) {
 					if r0.GasUsed > 0 || r0.Codespace != "" {
 						nontrivial++
 					}
+					cls := fmt.Sprintf("%s:%s/%d", d.Method, r0.Codespace, r0.Code)
+					if i := strings.Index(d.Note, "change-parameters:"); i >= 0 {
+						cls += d.Note[i:]
+					}
+					failedAfterAuth = append(failedAfterAuth, failedCand{d.Raw, verdict.Addr, desc, cls})
 					// mempool checks and gas estimation never change committed state
 					_ = chain.Call(func() {
 						prober.Mux.CheckTx(types.RequestCheckTx{Tx: d.Raw, Type: types.CheckTxType_New})
@@ -228,6 +248,76 @@ func TestC08FailedTx(t *testing.T) {
 							_, _ = prober.Srv.EstimateGas(verdict.Signer, verdict.Tx)
 						}
 					})
+				}
+				// ---- a failed transaction AMONG OTHERS: the block's own generated transactions with and without one of the
+				// failing candidates inserted at a generated position. "Changes nothing but fee and nonce" includes what the
+				// rest of the block sees: every other transaction's result and the working state (except the keys a fee may
+				// touch) are the same as without it. Preconditions (else skipped and counted): no block gas limit (a failed
+				// transaction legitimately uses block gas), the candidate's signer neither signs nor is mentioned in any own
+				// transaction and is not the proposer's entity, and the candidate still fails at its position.
+				// One candidate per (method, result) class seen at this probing point, at most six.
+				var amongSet []failedCand
+				seenClass := map[string]bool{}
+				for _, fc := range failedAfterAuth {
+					if !seenClass[fc.class] && len(amongSet) < 8 {
+						seenClass[fc.class] = true
+						amongSet = append(amongSet, fc)
+					}
+				}
+				if len(b.Txs) == 0 || rapid.IntRange(0, 3).Draw(t, "among") == 0 {
+					amongSet = nil
+				}
+				for _, fc := range amongSet {
+					independent := spec.MaxBlockGas == 0 && (proposerEntity == nil || *proposerEntity != fc.addr)
+					for _, raw := range b.Txs {
+						if v := chain.Judge(sim.W, pre, raw); (v.EnvelopeOK && v.Addr == fc.addr) || bytes.Contains(raw, fc.addr[:]) {
+							independent = false
+						}
+					}
+					if !independent {
+						rec.Discard("among-others:candidate-not-independent-of-the-block")
+					} else {
+						pos := rapid.IntRange(0, len(b.Txs)-1).Draw(t, "amongPos") // in front of at least one own transaction
+						res0, w0, err0 := chain.Probe(prober, b, "among-base", b.Txs)
+						with := make([][]byte, 0, len(b.Txs)+1)
+						with = append(with, b.Txs[:pos]...)
+						with = append(with, fc.raw)
+						with = append(with, b.Txs[pos:]...)
+						res1, w1, err1 := chain.Probe(prober, b, "among", with)
+						switch {
+						case err0 != nil || err1 != nil:
+							fail("probe-panic", "executing the block's own transactions with/without a failing candidate panicked: %v / %v", err0, err1)
+						case res1[pos].Code == 0:
+							rec.Discard("among-others:candidate-succeeds-at-this-position")
+						default:
+							allowed := map[string]bool{chain.AccountKey(fc.addr): true, chain.CommonPoolKey: true, chain.LastBlockFeesKey: true}
+							if proposerEntity != nil {
+								allowed[chain.AccountKey(*proposerEntity)] = true
+							}
+							for _, k := range chain.Diff(w0, w1) {
+								if !allowed[k] {
+									fail("failed-tx-changed-state", "a failed transaction inserted at position %d of a block of %d changed state key %x of the block's outcome besides its own fee and nonce: %s", pos, len(b.Txs), k, fc.desc)
+								}
+							}
+							for i := range b.Txs {
+								j := i
+								if i >= pos {
+									j = i + 1
+								}
+								if res0[i].Code != res1[j].Code || res0[i].Codespace != res1[j].Codespace || !bytes.Equal(res0[i].Data, res1[j].Data) || res0[i].GasUsed != res1[j].GasUsed {
+									fail("failed-tx-changed-state", "a failed transaction inserted at position %d changed the result of own transaction %d of the block (%s/%d gas %d -> %s/%d gas %d): %s",
+										pos, i, res0[i].Codespace, res0[i].Code, res0[i].GasUsed, res1[j].Codespace, res1[j].Code, res1[j].GasUsed, fc.desc)
+								}
+							}
+							rec.Label("failed-among-others")
+							rec.Label("failed-among-others:" + fc.class)
+							if i := strings.Index(fc.desc, "change-parameters:"); i >= 0 {
+								rec.Label("failed-among-others:" + strings.SplitN(fc.desc[i:], ",", 2)[0])
+							}
+							rec.LabelN("failed-among-others:own-transactions-behind", uint64(len(b.Txs)-pos))
+							nontrivial++
+						}
+					}
 				}
 				committedAfter, _ := chain.DumpAtVersion(prober, 0)
 				if ks := chain.Diff(committedBefore, committedAfter); len(ks) != 0 {
